@@ -7,8 +7,10 @@
 package wire
 
 import (
+	"bytes"
 	"encoding/json"
 	"fmt"
+	"io"
 	"math/rand"
 	"reflect"
 	"strings"
@@ -36,11 +38,11 @@ var strPool = []struct {
 }
 
 // abstract JSON constructors
-func jNull() rec           { return rec{"k": "null"} }
-func jBool(b bool) rec     { return rec{"k": "bool", "b": b} }
-func jNum(n int) rec       { return rec{"k": "num", "n": n} }
-func jStr(i int) rec       { return rec{"k": "str", "s": strPool[i].s, "validrid": strPool[i].valid} }
-func jArr(a ...rec) rec    { return rec{"k": "arr", "a": append([]rec{}, a...)} }
+func jNull() rec        { return rec{"k": "null"} }
+func jBool(b bool) rec  { return rec{"k": "bool", "b": b} }
+func jNum(n int) rec    { return rec{"k": "num", "n": n} }
+func jStr(i int) rec    { return rec{"k": "str", "s": strPool[i].s, "validrid": strPool[i].valid} }
+func jArr(a ...rec) rec { return rec{"k": "arr", "a": append([]rec{}, a...)} }
 func jObj(m ...[]interface{}) rec {
 	ms := [][]interface{}{}
 	ms = append(ms, m...)
@@ -85,6 +87,22 @@ func toGo(j rec) interface{} {
 	var v interface{}
 	json.Unmarshal([]byte(text(j, nil)), &v)
 	return v
+}
+
+// chunkReader hands out one chunk per Read, so that a decoder reuses its buffer between values.
+type chunkReader struct{ chunks [][]byte }
+
+func (r *chunkReader) Read(p []byte) (int, error) {
+	if len(r.chunks) == 0 {
+		return 0, io.EOF
+	}
+	n := copy(p, r.chunks[0])
+	if n < len(r.chunks[0]) {
+		r.chunks[0] = r.chunks[0][n:]
+	} else {
+		r.chunks = r.chunks[1:]
+	}
+	return n, nil
 }
 
 func classifyReal(txt string) (string, string) {
@@ -200,10 +218,37 @@ func Run(c *core.Ctx) {
 			tb = text(vals[b], rng) // another writing of the same value
 		}
 		var va, vb store.Value
-		if json.Unmarshal([]byte(ta), &va) != nil || json.Unmarshal([]byte(tb), &vb) != nil {
+		// both values are parsed from one receive buffer that is reused afterwards (directly, or through a decoder)
+		buf := make([]byte, 0, len(ta)+len(tb)+2)
+		buf = append(buf, ta...)
+		var ea, eb error
+		if rng.Intn(2) == 0 {
+			ea = json.Unmarshal(buf, &va)
+			buf = append(buf[:0], tb...)
+			eb = json.Unmarshal(buf, &vb)
+		} else {
+			ea = json.NewDecoder(&chunkReader{chunks: [][]byte{[]byte(ta + "\n"), []byte(tb + "\n")}}).Decode(&va)
+			dec := json.NewDecoder(&chunkReader{chunks: [][]byte{[]byte(tb + " "), []byte(ta + " "), []byte(`"zzzzzzzzzzzzzzzzzzzzzzzzzzzzzzzzzzzzzzzz"`)}})
+			eb = dec.Decode(&vb)
+			var skip1, skip2 store.Value
+			dec.Decode(&skip1)
+			dec.Decode(&skip2)
+		}
+		if ea != nil || eb != nil {
 			continue
 		}
-		recs = append(recs, rec{"op": "equal", "a": vals[a], "b": vals[b], "eqab": va.Equal(vb), "eqba": vb.Equal(va), "eqaa": va.Equal(va), "sametext": ta == tb, "dbg": ta + " vs " + tb})
+		ma1, _ := json.Marshal(va)
+		mb1, _ := json.Marshal(vb)
+		for k := range buf {
+			buf[k] = 'x'
+		}
+		ma2, _ := json.Marshal(va)
+		mb2, _ := json.Marshal(vb)
+		var fa, fb store.Value
+		json.Unmarshal([]byte(ta), &fa)
+		json.Unmarshal([]byte(tb), &fb)
+		stable := bytes.Equal(ma1, ma2) && bytes.Equal(mb1, mb2) && va.Equal(fa) && fa.Equal(va) && vb.Equal(fb) && fb.Equal(vb) && va.Type == fa.Type && vb.Type == fb.Type
+		recs = append(recs, rec{"op": "equal", "a": vals[a], "b": vals[b], "eqab": va.Equal(vb), "eqba": vb.Equal(va), "eqaa": va.Equal(va), "sametext": ta == tb, "stable": stable, "dbg": ta + " vs " + tb})
 	}
 	// (3) references
 	extra := []string{"ctl\x01\x1f", " line", "emoji😀.x", "a\"b\\c", "<script>&amp;", "héllo.wörld", strings.Repeat("long.", 50) + "x"}
